@@ -414,6 +414,84 @@ def _direct_momentum(c):
                             mk.upper(), i, j, c["name"]))
     return None
 
+
+# --------------------------------------------------------------------------------------------------
+# chains continued from the returned core state
+# --------------------------------------------------------------------------------------------------
+
+def resume_chain_cases(ctx):
+    out = []
+    for smp in ("hmc", "nuts"):
+        for (n, k) in ([(3, 3)] if ctx.quick else [(3, 3), (1, 4), (5, 2)]):
+            out.append({"kind": "resume_chain", "sampler": smp, "n": n, "k": k, "seed": 41 + ctx.seed})
+    return out
+
+
+def _bits(a):
+    return [int(x) for x in np.asarray(a, dtype=np.float64).ravel().view(np.int64)]
+
+
+def observe_resume_chain(c):
+    """one run of k*n samples, and k runs of n samples each continued from the returned core state;
+    for every returned key the number of `split(key, 3)[0]` advances from the start key."""
+    import jax
+    import jax.numpy as jnp
+    import nifty.re as jft
+    A = jnp.array([[1.5, 0.25], [0.25, 0.75]])
+    V = lambda q: 0.5 * q @ A @ q + jnp.sum(q ** 4) / 8.0
+    proto = jnp.zeros(2)
+    if c["sampler"] == "hmc":
+        smp = jft.HMCChain(potential_energy=V, inverse_mass_matrix=1.0, position_proto=proto, num_steps=3, step_size=0.3)
+    else:
+        smp = jft.NUTSChain(potential_energy=V, inverse_mass_matrix=1.0, position_proto=proto, step_size=0.3, max_tree_depth=3)
+    n, k = int(c["n"]), int(c["k"])
+    key0 = jax.random.PRNGKey(int(c["seed"]))
+    pos0 = jnp.array([0.5, -0.25])
+
+    def advances(key, limit):
+        kk = key0
+        for j in range(limit + 1):
+            if np.array_equal(np.asarray(kk), np.asarray(key)):
+                return j
+            kk = jax.random.split(kk, 3)[0]
+        return -1
+    with Eager(False):
+        one, st_one = smp.generate_n_samples(key0, pos0, num_samples=n * k)
+        segs, adv = [], []
+        st = (key0, pos0)
+        for i in range(k):
+            ch, st = smp.generate_n_samples(st[0], st[1], num_samples=n)
+            segs.append(np.asarray(ch.samples))
+            adv.append(advances(st[0], n * k))
+    return {"one": np.asarray(one.samples), "segs": segs, "adv": adv, "adv_one": advances(st_one[0], n * k),
+            "final_one": np.asarray(st_one[1]), "final_seg": np.asarray(st[1])}
+
+
+def resume_chain_checks(c, o):
+    n, k = int(c["n"]), int(c["k"])
+    enc = lambda arr: C.clist([C.clist([C.cz(b) for b in _bits(row)]) for row in arr])
+    out = [("resume-chain", "resume_case %s %s" % (enc(o["one"]), C.clist([enc(sg) for sg in o["segs"]]))),
+           ("resume-key", "key_case %d %d" % (n * k, max(o["adv_one"], 0) if o["adv_one"] >= 0 else 5000 - 1))]
+    for i, a in enumerate(o["adv"]):
+        out.append(("resume-key", "key_case %d %d" % (n * (i + 1), a if a >= 0 else 5000 - 1)))
+    return out
+
+
+def _direct_resume_chain(c, o=None):
+    o = o or observe_resume_chain(c)
+    n, k = int(c["n"]), int(c["k"])
+    cat = np.concatenate(o["segs"], axis=0)
+    if cat.shape != o["one"].shape or not np.array_equal(cat, o["one"]):
+        bad = int(np.argmax(np.any(cat != o["one"], axis=tuple(range(1, cat.ndim))))) if cat.shape == o["one"].shape else -1
+        return ("chain-resume", "%s chain: %d segments of %d samples continued from the returned core state differ from one run of %d samples (first difference at sample %d)" % (
+            c["sampler"].upper(), k, n, n * k, bad))
+    if not np.array_equal(o["final_one"], o["final_seg"]):
+        return ("chain-resume", "%s chain: final position of the segmented run differs from the one-shot run" % c["sampler"].upper())
+    for i in range(1, k):
+        if np.array_equal(o["segs"][i], o["segs"][0]) and np.any(o["segs"][0] != o["segs"][0][0]):
+            return ("chain-resume", "%s chain: segment %d replays segment 0 bit for bit" % (c["sampler"].upper(), i))
+    return None
+
 # --------------------------------------------------------------------------------------------------
 # case generation
 # --------------------------------------------------------------------------------------------------
@@ -638,6 +716,20 @@ class C32(C.Check):
                 meta.append(("momentum", c))
                 dist["momentum"] = dist.get("momentum", 0) + 1
                 nontrivial.add(("momentum", t["name"], o["n"]))
+        # chains continued from the returned core state
+        self.resume_obs = []
+        for c in resume_chain_cases(ctx):
+            try:
+                o = observe_resume_chain(c)
+            except Exception as e:
+                res.add_broken("correspondence", "implementation raised", {"case": _js(c), "error": repr(e)[:300]})
+                continue
+            self.resume_obs.append((c, o))
+            for lab, t in resume_chain_checks(c, o):
+                checks.append(t)
+                meta.append((lab, c))
+                dist[lab] = dist.get(lab, 0) + 1
+            nontrivial.add(("resume_chain", c["sampler"], c["n"], c["k"]))
         # bit functions, exact
         rng = ctx.rng(3204)
         from nifty.re import hmc
@@ -670,7 +762,7 @@ class C32(C.Check):
             "rule": "generated potentials V = b.q + q.A.q/2 + sum c q^4/4 (dyadic parameters, d<=3, optional NaN/+inf barrier), dyadic states, step sizes, diagonal masses; "
                     "lf: n real leapfrog steps vs translated step in Q (rel. tol 1e-9); hmc: generate_hmc_acc_rej (eager, 1 in 10 compiled) vs model incl. accept decision replayed from the uniform draw, divergence flag, both returned points; "
                     "nuts: per iterative_build_tree call the exact sequence of checkpoint writes/reads, U-turn decisions on the recorded float arguments, keep/merge probabilities vs progressive-sampling model; bits: popcount / count_trailing_ones exact. "
-                    "distinct = classes (kind, dimension/steps/quartic | accept, diverging, barrier | depth, turning, bias)",
+                    "momentum: sample_momentum_from_diagonal on pytrees with several equal-shaped leaves (dict, nested, tuple, Vector): the sub-key index that reproduces each leaf bit for bit against leaf_keys; resume: k segments of n samples continued from the returned core state against one run of k*n samples (float64 bit patterns, HMC and NUTS) and the number of key advances of every returned key. distinct = classes (kind, dimension/steps/quartic | accept, diverging, barrier | depth, turning, bias | tree, leaves | sampler, n, k)",
             "samples": [_js(c) for c in self.cases[:2]],
             "input_distribution": dist, "disagreements": len(bad), "exhaustive": False,
         })
@@ -714,6 +806,15 @@ class C32(C.Check):
                 for smp in ("hmc", "nuts"):
                     todo.append({"kind": "moments", "target": tg, "sampler": smp, "nsamp": 4000, "seed": 11 + ctx.seed})
         stats = {}
+        for c, o in getattr(self, "resume_obs", []):
+            n_eval += 1
+            stats["resume_chain"] = stats.get("resume_chain", 0) + 1
+            f = _direct_resume_chain(c, o)
+            if f:
+                res.add_failing({"fn": "generate_n_samples", "class": f[0]}, f[1], _js(c))
+        for c in ctx.corpus():
+            if c.get("kind") == "resume_chain":
+                todo.append(c)
         for k_todo, c in enumerate(todo):
             if k_todo >= n_hints and res.failing:
                 break                      # a failing input among the disagreeing cases is enough
@@ -756,7 +857,7 @@ class C32(C.Check):
 
 def _fn_of(c):
     return {"lf": "leapfrog_step", "hmc": "generate_hmc_acc_rej", "chain": "HMCChain.generate_n_samples",
-            "nutsinv": "generate_nuts_tree", "moments": "generate_n_samples", "momentum": "sample_momentum_from_diagonal"}.get(c["kind"], c["kind"])
+            "nutsinv": "generate_nuts_tree", "moments": "generate_n_samples", "momentum": "sample_momentum_from_diagonal", "resume_chain": "generate_n_samples"}.get(c["kind"], c["kind"])
 
 
 def _js(c):
@@ -782,6 +883,8 @@ def direct_failure(c):
         return _direct_moments(c)
     if k == "momentum":
         return _direct_momentum(c)
+    if k == "resume_chain":
+        return _direct_resume_chain(c)
     raise ValueError(k)
 
 
